@@ -1,7 +1,6 @@
 """Calculates the vectors associated to a Gram matrix."""
 
 import numpy as np
-import scipy
 
 
 def vectors_from_gram_matrix(gram: np.ndarray) -> list[np.ndarray]:
@@ -52,9 +51,12 @@ def vectors_from_gram_matrix(gram: np.ndarray) -> list[np.ndarray]:
     # Otherwise, need to do eigendecomposition:
     except np.linalg.LinAlgError:
         print("Matrix is not positive semidefinite. Using eigendecomposition as alternative.")
-        d, v = np.linalg.eig(gram)
-        # The eigenvectors of a repeated eigenvalue are not returned orthogonal: orthonormalise them
-        # (keeping their order and phases) so that gram = v @ diag(d) @ v^dagger.
-        q_mat, r_mat = np.linalg.qr(v)
-        v = q_mat * (np.diag(r_mat) / np.abs(np.diag(r_mat)))
-        return [scipy.linalg.sqrtm(np.diag(d)) @ v[i].conj().T for i in range(dim)]
+        # Orthonormal eigenvectors (also inside the eigenspace of a repeated eigenvalue): gram = b_mat @ b_mat^dagger.
+        d, v = np.linalg.eigh(gram)
+        b_mat = v * np.sqrt(np.clip(d, 0, None))
+        # Bring the factor to the triangular form the Cholesky branch returns: gram = r_mat^dagger @ r_mat.
+        r_mat = np.linalg.qr(b_mat.conj().T)[1]
+        diag = np.diag(r_mat)
+        phases = np.where(np.abs(diag) > 0, diag / np.where(np.abs(diag) > 0, np.abs(diag), 1), 1)
+        decomp = (r_mat * phases.conj()[:, np.newaxis]).conj().T
+        return [decomp[i][:].conj() for i in range(dim)]
